@@ -81,7 +81,7 @@ class NFA:
         self.trans.setdefault(a, []).append((pred, b))
 
 
-def build(tree, nfa, start, ignorecase=False, lookahead="error"):
+def build(tree, nfa, start, ignorecase=False, lookahead="error", dotall=False):
     """Return end state after matching `tree` from `start`."""
     cur = start
     for op, av in tree:
@@ -99,7 +99,7 @@ def build(tree, nfa, start, ignorecase=False, lookahead="error"):
             cur = nxt
         elif op is sre_c.ANY:
             nxt = nfa.new()
-            nfa.t(cur, (lambda c: c != "\n"), nxt)
+            nfa.t(cur, ((lambda c: True) if dotall else (lambda c: c != "\n")), nxt)
             cur = nxt
         elif op is sre_c.IN:
             nxt = nfa.new()
@@ -110,26 +110,26 @@ def build(tree, nfa, start, ignorecase=False, lookahead="error"):
             for alt in av[1]:
                 s = nfa.new()
                 nfa.e(cur, s)
-                e = build(alt, nfa, s, ignorecase, lookahead)
+                e = build(alt, nfa, s, ignorecase, lookahead, dotall)
                 nfa.e(e, end)
             cur = end
         elif op is sre_c.SUBPATTERN:
-            cur = build(av[3], nfa, cur, ignorecase, lookahead)
+            cur = build(av[3], nfa, cur, ignorecase, lookahead, dotall)
         elif op in (sre_c.MAX_REPEAT, sre_c.MIN_REPEAT) or str(op) == "POSSESSIVE_REPEAT":
             lo, hi, sub = av
             for _ in range(lo):
-                cur = build(sub, nfa, cur, ignorecase, lookahead)
+                cur = build(sub, nfa, cur, ignorecase, lookahead, dotall)
             if hi is sre_c.MAXREPEAT:
                 loop = nfa.new()
                 nfa.e(cur, loop)
-                e = build(sub, nfa, loop, ignorecase, lookahead)
+                e = build(sub, nfa, loop, ignorecase, lookahead, dotall)
                 nfa.e(e, loop)
                 cur = loop
             else:
                 end = nfa.new()
                 nfa.e(cur, end)
                 for _ in range(hi - lo):
-                    cur = build(sub, nfa, cur, ignorecase, lookahead)
+                    cur = build(sub, nfa, cur, ignorecase, lookahead, dotall)
                     nfa.e(cur, end)
                 cur = end
         elif op is sre_c.AT:
@@ -154,9 +154,10 @@ class Lang:
         fl = getattr(tree, "state", None)
         fl = fl.flags if fl is not None else flags
         self.ignorecase = bool(fl & re.IGNORECASE)
+        self.dotall = bool(fl & re.DOTALL)
         self.nfa = NFA()
         self.start = self.nfa.new()
-        self.end = build(tree, self.nfa, self.start, self.ignorecase, lookahead)
+        self.end = build(tree, self.nfa, self.start, self.ignorecase, lookahead, self.dotall)
         self._closure_cache = {}
 
     def closure(self, states):
